@@ -94,7 +94,7 @@ def finish(prop, tier, seed, results, t0, facts_info, explanation, not_decided, 
                 kn.append((v, known[(prop, v.key)]))
             else:
                 new.append(v)
-    replay_dir = os.path.join(VERIF, "replay", prop)
+    replay_dir = os.path.join(os.environ.get("VERIF_REPLAY_DIR") or os.path.join(VERIF, "replay"), prop)
     os.makedirs(replay_dir, exist_ok=True)
     for f in os.listdir(replay_dir):
         os.unlink(os.path.join(replay_dir, f))
@@ -164,7 +164,8 @@ def finish(prop, tier, seed, results, t0, facts_info, explanation, not_decided, 
         ev["coverage"].update(extra)
     if selftest:
         ev["coverage"]["selftest"] = selftest
-    os.makedirs(os.path.join(VERIF, "evidence"), exist_ok=True)
-    json.dump(ev, open(os.path.join(VERIF, "evidence", f"{prop}.json"), "w"), indent=1)
+    evdir = os.environ.get("VERIF_EVIDENCE_DIR") or os.path.join(VERIF, "evidence")
+    os.makedirs(evdir, exist_ok=True)
+    json.dump(ev, open(os.path.join(evdir, f"{prop}.json"), "w"), indent=1)
     print(f"  evidence: obligations={obligations} discharged={discharged} known={len(kn)} new={len(new)} wall={ev['wall_s']}s")
     return code
